@@ -389,6 +389,10 @@ def run(ctx, rep):
         # must reach the caller as an error - the same discipline rule as C17
         from ..streamrules import rule_error_discipline
         rule_error_discipline(F, rep, "stream-read-failure-propagates")
+        # ... and a refused or failed read leaves nothing in the cache that a later query on the same handle could answer from (a buffer
+        # inserted before the range check / the read succeeded turns the error of the first query into zeros for the second)
+        from ..streamrules import rule_io_protocol
+        rule_io_protocol(F, rep, "stream-refusal-leaves-no-buffer")
     rep.info["argument"] = EXPLANATION_PROOF
     rep.trusted_base += ["<[u8]>::get(a..b) returns exactly bytes [a,b) or None; bounded parses read only via get (C04)",
                         "sub-buffers (section / segment slices) have header-designated extents and are therefore not length-tainted"]
